@@ -18,7 +18,7 @@ const c12Singles = 16 * 3 * 33
 func c12Counts(tier string) (singles, pairs, random int) {
 	s := c12Singles / c12SinglesPerCase
 	if tier == "thorough" {
-		return s, 60000, 2000000 + 3*len(c12Sizes(tier))
+		return s, 150000, 5000000 + 3*len(c12Sizes(tier))
 	}
 	return s, 2000, 40000 + 3*len(c12Sizes(tier))
 }
